@@ -230,13 +230,14 @@ def run(ctx):
     if ctx.shard == 1 % ctx.nshards:
         from vf.repo_corpus import documents
 
-        for k, c in enumerate(documents()):
+        for k, c in enumerate(ctx.guard("repo-doc", None, documents) or []):
             for variant in range(2):
                 case = dict(c)
                 if variant:
                     case["hist"] = gen_history_on(ctx.rng("repo-doc", k), 12, max_steps=12)
                 ctx.count("monitor:repo-test-documents")
-                ctx.guard("repo-doc", case, check_hugr_case, ctx, case, "program", True)
+                # (the static-port clause presupposes builder-laid static edges: only without the history)
+                ctx.guard("repo-doc", case, check_hugr_case, ctx, case, "program+history" if variant else "program", True)
                 ctx.case("repo-doc", case, len(c["doc"]["nodes"]) >= 6)
     n = ctx.n(1200, 40000)
     every = 4 if ctx.quick else 1
